@@ -13,15 +13,21 @@ import warnings
 import numpy as np
 
 import gen
-from common import I, ModelRaise, exc_kind, f2h
+import history
+from common import I, ModelRaise, exc_kind, f2h, read_shuffled
 
 RULE = ("all ten shape classes: convex vertex sets from gen.convex_solid (always offset 0.5..10 diameters), "
         "Polyhedron copies of them and extruded L/star prisms with fan-triangulated caps, c19_polygon (convex / star / comb / L cycles, 3..24 "
         "vertices, both orientations, default / explicit / opposing normal, flat or in a random plane, offset "
-        "0.5..10 diameters, scale 1e-2..1e2), c19_curved (radii log-uniform 1e-3..1e3 incl. near ties, centres with "
-        "distinct non-zero components); every GSD type string plus missing-key and unknown-type variants; random "
-        "attribute requests; random key dicts. distinct = distinct case dicts; non-trivial = a constructed shape "
-        "off the origin or a dict with >= 1 key")
+        "0.5..10 diameters, scale 1e-2..1e2), c19_dispatch_cases (convex cycles listed clockwise, with explicit -z normal, in the "
+        "xz- and yz-plane, tilted by 0.7 and 2.4 rad, in an almost flat plane (gen.near_axis_rotation), given as (N,2) arrays; each as "
+        "ConvexPolygon, Polygon and ConvexSpheropolygon incl. rounding radius 0), c19_curved (radii log-uniform 1e-3..1e3 incl. near "
+        "ties, centres with distinct non-zero components); a third of the shapes REACHED THROUGH MUTATORS (history.maybe_via_history), "
+        "the four representations asked in an order drawn per case, GSD and repr once more after to_hoomd / centroid-setter moves; "
+        "to_hoomd asked four times per object (first, again at once, after other queries, after a centroid-setter move); every "
+        "GSD type string plus missing-key and unknown-type variants, both values of `dimensions`; random attribute requests; random key "
+        "dicts; eight shapes with a non-finite parameter (repr text only, correspondence). distinct = distinct case dicts; "
+        "non-trivial = a constructed shape off the origin or a dict with >= 1 key")
 ASSUMPTIONS = [
     "independent observables: polygon area/centroid/polar moment from fan triangles of the ordered cycle, polyhedron "
     "volume/centroid/inertia from signed tetrahedra over the fan-triangulated (outward) faces, sphere/ellipsoid closed "
@@ -32,8 +38,17 @@ ASSUMPTIONS = [
     "before the call (translation invariant; the Steiner formulas themselves are C11)",
     "Ext answers sent to the model (planarity, simplicity, convexity of an ordered cycle, hull membership) are computed "
     "by the harness for generated inputs; cycles within 1e-7 of a convexity tie are dropped",
-    "GSD clause 'missing or unknown type -> ValueError' is an oracle clause; other missing keys (KeyError) are "
-    "correspondence only",
+    "GSD clause 'missing or unknown type -> ValueError' is an oracle clause; other missing keys (KeyError) and a spec read with "
+    "the non-matching `dimensions` are correspondence only",
+    "hypotheses of the measured to_hoomd theorems are decided per object: Closed / Closed0 = chainCheck over Q of the object's own "
+    "simplices (ConvexPolyhedron._simplices; for a Polyhedron the polytri triangles matched back to vertex indices) against the "
+    "cone from the vertex mean + sign of the cone's volume (driver op chain.check, sound by C01's chainCheck_rat_sound / "
+    "cone_closed); IsFrame R n for the kabsch matrix numerically (1e-12); planarity / triangulation certificates of a polygon are "
+    "C04's per-run checks",
+    "the digits float.__repr__ chooses are outside the model: checked as float(str(x)) == x for every printed number; the model "
+    "keeps the token structure (unary minus, bare names inf / nan, nested list displays, integer literals)",
+    "a to_hoomd failure of a clause that the FIRST call on the object already violated is not reported again for the later calls "
+    "(same defect); failures that only later calls show carry the suffix :repeat / :after-queries / :after-move",
 ]
 
 CLS = ["Circle", "Sphere", "Ellipse", "Ellipsoid", "Polygon", "ConvexPolygon", "ConvexSpheropolygon",
@@ -510,6 +525,55 @@ def c19_radius(rng, d):
     return float(d * 10 ** rng.uniform(-2, 0.3))
 
 
+def c19_dispatch_cases(rng):
+    """Convex cycles in the placements where a shortcut for the ConvexPolygon / Polygon decision of
+    from_gsd_type_shapes goes wrong: listed clockwise, explicit -z normal (the class then STORES them clockwise),
+    vertical planes (xy-projection degenerate), planes tilted beyond 90 degrees (xy-projection clockwise), almost flat
+    planes, (N,2) input.  Each for ConvexPolygon, Polygon and ConvexSpheropolygon (rounding radius 0 included)."""
+    out = []
+    for place in ("xy-ccw", "xy-cw", "xy-normal-minus-z", "xz-plane", "yz-plane", "tilt-0.7-cw", "tilt-2.4",
+                  "neartilt", "n2-cw", "n2-ccw"):
+        for cls in ("ConvexPolygon", "Polygon", "ConvexSpheropolygon"):
+            p = c19_cycle(rng, "convex")
+            scale = 1.0 if rng.random() < 0.6 else float(10 ** rng.uniform(-2, 2))
+            p = p * scale
+            d = float(np.max(np.linalg.norm(p[:, None] - p[None], axis=-1)))
+            off = rng.normal(size=3)
+            off = off / np.linalg.norm(off) * float(rng.uniform(0.5, 10)) * d
+            v = np.c_[p, np.zeros(len(p))]
+            normal = None
+            if place in ("xy-cw", "tilt-0.7-cw", "n2-cw"):
+                v = v[::-1]
+            if place == "xy-normal-minus-z":
+                normal = [0.0, 0.0, -1.0]
+            if place == "xz-plane":
+                v = v[:, [0, 2, 1]]
+            elif place == "yz-plane":
+                v = v[:, [2, 0, 1]]
+            elif place in ("tilt-0.7-cw", "tilt-2.4"):
+                ang = 0.7 if place == "tilt-0.7-cw" else 2.4
+                ax = np.array([np.cos(0.4), np.sin(0.4), 0.0])
+                K = np.array([[0, -ax[2], ax[1]], [ax[2], 0, -ax[0]], [-ax[1], ax[0], 0]])
+                R = np.eye(3) + np.sin(ang) * K + (1 - np.cos(ang)) * (K @ K)
+                v = v @ R.T
+            elif place == "neartilt":
+                v = v @ gen.near_axis_rotation(rng).T
+            if place in ("n2-cw", "n2-ccw"):
+                v = (v + np.r_[off[:2], 0.0])[:, :2]
+            else:
+                if place.startswith("xy"):
+                    off[2] = 0.0 if rng.random() < 0.5 else off[2]
+                v = v + off
+            case = {"kind": "shape", "cls": cls, "vertices": v.tolist(),
+                    "info": {"kind": "convex", "place": place, "scale": scale, "n": len(v)}}
+            if normal is not None:
+                case["normal"] = normal
+            if cls == "ConvexSpheropolygon":
+                case["radii"] = [c19_radius(rng, d)]
+            out.append(case)
+    return out
+
+
 def make_shape_case(rng, ctx, cls):
     if cls in ("Circle", "Sphere"):
         r, c = c19_curved(rng, 1)
@@ -661,6 +725,26 @@ def check_gsd(ctx, case, s):
         ctx.skipped_near_boundary += 1
         return
     dim = dim_of(cls)
+    if cls not in ("Circle", "Sphere", "Ellipse", "Ellipsoid"):
+        # the `dimensions` argument must be ignored for every vertex based class: ask with 2 or 3
+        dim = 2 + (case.get("json_ints") or [1])[0] % 2
+        ctx.count("gsd:dimensions=%d:vertex-class" % dim)
+    else:
+        # B only: the same spec read with the OTHER dimensionality (Sphere <-> Circle, Ellipsoid -> Ellipse, the two-key
+        # spec of an Ellipse read as an Ellipsoid: KeyError)
+        other = 5 - dim
+        try:
+            with warnings.catch_warnings():
+                warnings.simplefilter("ignore")
+                got = ("ok", record(from_gsd_type_shapes(spec, dimensions=other)))
+        except Exception as e:  # noqa: BLE001
+            got = ("raise", exc_kind(e))
+        try:
+            mk = ("ok", Cur(ctx.driver.F("c19.fromgsd", t_dict(gsd_items(spec)), I(other), ext_for(None))).shape())
+        except ModelRaise as e:
+            mk = ("raise", e.kind)
+        if mk[0] != got[0] or (mk[0] == "raise" and mk[1] != got[1]) or (mk[0] == "ok" and rec_diff(mk[1], got[1])):
+            ctx.disagree("c19.fromgsd:other-dimension", case, [str(mk)[:200], str(got)[:200]])
     try:
         s2 = from_gsd_type_shapes(spec, dimensions=dim)
     except Exception as e:
@@ -725,17 +809,137 @@ def kw_items(kwargs):
     return out
 
 
+def repr_tokens(text):
+    """the printed text as the model's tokens: ('name', dotted) | 'lpar' ... | ('num', float) | ('int', n).
+    A dotted name is one token; a NUMBER with a point / exponent is a float literal, otherwise an integer."""
+    import io
+    import tokenize
+    punct = {"(": "lpar", ")": "rpar", "[": "lbr", "]": "rbr", ",": "comma", "=": "eq", "-": "minus"}
+    out = []
+    for tok in tokenize.generate_tokens(io.StringIO(text).readline):
+        if tok.type in (tokenize.NEWLINE, tokenize.NL, tokenize.ENDMARKER):
+            continue
+        if tok.type == tokenize.NAME:
+            if len(out) >= 2 and out[-1] == "dot" and isinstance(out[-2], tuple) and out[-2][0] == "name":
+                out.pop()
+                out[-1] = ("name", out[-1][1] + "." + tok.string)
+            else:
+                out.append(("name", tok.string))
+        elif tok.type == tokenize.NUMBER:
+            t = tok.string
+            if any(ch in t for ch in ".eE") and not t.lower().startswith("0x"):
+                out.append(("num", float(t)))
+            else:
+                out.append(("int", int(t)))
+        elif tok.type == tokenize.OP and tok.string == ".":
+            out.append("dot")
+        elif tok.type == tokenize.OP and tok.string in punct:
+            out.append(punct[tok.string])
+        else:
+            raise ValueError("token outside the repr grammar: %r" % (tok.string,))
+    if "dot" in out:
+        raise ValueError("stray dot")
+    return out
+
+
+TOKTAG = {"lpar": 1, "rpar": 2, "lbr": 3, "rbr": 4, "comma": 5, "eq": 6, "minus": 7}
+
+
+def t_toks(toks):
+    out = [I(len(toks))]
+    for t in toks:
+        if isinstance(t, tuple) and t[0] == "name":
+            out += [I(0)] + t_str(t[1])
+        elif isinstance(t, tuple) and t[0] == "num":
+            out += [I(8), f2h(t[1])]
+        elif isinstance(t, tuple) and t[0] == "int":
+            out += [I(9), I(t[1])]
+        else:
+            out.append(I(TOKTAG[t]))
+    return out
+
+
+def rd_toks(cur):
+    inv = {v: k for k, v in TOKTAG.items()}
+    out = []
+    for _ in range(cur.int()):
+        tag = cur.int()
+        if tag == 0:
+            out.append(("name", cur.str()))
+        elif tag == 8:
+            out.append(("num", cur.sc()))
+        elif tag == 9:
+            out.append(("int", cur.int()))
+        else:
+            out.append(inv[tag])
+    return out
+
+
+def toks_diff(model, impl_toks):
+    """first difference; numbers by value and sign bit (an int literal where the model prints a float — a radius that
+    was given as an int — is the same number)"""
+    if len(model) != len(impl_toks):
+        return "token count %d != %d" % (len(model), len(impl_toks))
+    for i, (a, b) in enumerate(zip(model, impl_toks)):
+        if isinstance(a, tuple) and isinstance(b, tuple) and a[0] in ("num", "int") and b[0] in ("num", "int"):
+            x, y = float(a[1]), float(b[1])
+            if not (x == y and np.signbit(x) == np.signbit(y)):
+                return "token %d: number %r != %r" % (i, a, b)
+        elif a != b:
+            return "token %d: %r != %r" % (i, a, b)
+    return None
+
+
+def check_repr_text(ctx, case, rec, text, s2, err_kind):
+    """B at the level of the printed TEXT: the model prints the same tokens, and the model's evaluator run on the
+    implementation's own tokens returns what eval() returned (same object, or the same exception kind)."""
+    cls = rec["cls"]
+    try:
+        toks = repr_tokens(text)
+    except Exception as e:  # noqa: BLE001
+        ctx.fail("%s.__repr__:syntax" % cls, "repr contains a token outside `name(k=v, ...)` with list / number values", case,
+                 repr(e)[:200])
+        return
+    try:
+        m = rd_toks(Cur(ctx.driver.F("c19.reprtext", t_shape(rec))))
+        d = toks_diff(m, toks)
+        if d:
+            ctx.disagree("c19.reprtext", case, d)
+    except ModelRaise as e:
+        ctx.disagree("c19.reprtext", case, "model raised " + e.kind)
+    try:
+        r = ctx.driver.F("c19.evaltext", t_toks(toks), ext_for(rec["verts"], cls))
+        mrec = Cur(r).shape()
+        if s2 is None:
+            ctx.disagree("c19.evaltext", case, "impl raised %s, model returned %s" % (err_kind, mrec["cls"]))
+        else:
+            d = rec_diff(mrec, record(s2), normal_tol=1e-9)
+            if d:
+                ctx.disagree("c19.evaltext", case, d)
+    except ModelRaise as e:
+        if s2 is not None:
+            ctx.disagree("c19.evaltext", case, "model raised %s, impl returned" % e.kind)
+        elif err_kind is not None and e.kind != err_kind:
+            ctx.disagree("c19.evaltext", case, "exception kind: model %s impl %s" % (e.kind, err_kind))
+
+
 def check_repr(ctx, case, s):
     import coxeter
     rec = impl("attributes", record, s)
     cls = rec["cls"]
     text = impl("__repr__", repr, s)
+    err_kind = None
     try:
         s2 = eval(text, {"coxeter": coxeter})
     except Exception as e:
-        ctx.fail("%s.__repr__:eval-raises" % cls, "eval(repr(shape)) raised %s in an environment with only coxeter" %
-                 type(e).__name__, case, repr(e)[:300])
+        err_kind = type(e).__name__
+        if not case.get("nonfinite"):
+            ctx.fail("%s.__repr__:eval-raises" % cls, "eval(repr(shape)) raised %s in an environment with only coxeter" %
+                     type(e).__name__, case, repr(e)[:300])
         s2 = None
+    check_repr_text(ctx, case, rec, text, s2, err_kind)
+    if case.get("nonfinite"):
+        return
     if s2 is not None:
         rec2 = record(s2)
         if rec2["cls"] not in (cls, BASE.get(cls)):
@@ -909,6 +1113,319 @@ def hoomd_expect(s, rec):
     return cen, v - cen, vol, None
 
 
+def t_triples(tr):
+    return [I(len(tr))] + [I(int(i)) for t in tr for i in t]
+
+
+def obj_state(core):
+    """what the measure getters of the object read: vertices plus the caches, in the layout of driver op c19.hoomdobj"""
+    name = type(core).__name__
+    if name == "ConvexPolyhedron":
+        return {"kind": 0, "verts": np.array(core._vertices, dtype=float),
+                "simplices": [[int(i) for i in t] for t in core._simplices],
+                "faces": [[int(i) for i in f] for f in core.faces],
+                "centroid": np.array(core._centroid, dtype=float), "volume": float(core._volume),
+                "snormals": np.array(core._simplex_equations[:, :3], dtype=float)}
+    if name == "Polyhedron":
+        from coxeter.extern.polytri import polytri
+        V = np.array(core._vertices, dtype=float)
+        tri = []
+        for f in core.faces:
+            f = [int(i) for i in f]
+            fv = V[f]
+            for t in polytri.triangulate(fv):
+                tri.append([f[int(np.where((fv == np.asarray(p)).all(axis=1))[0][0])] for p in t])
+        return {"kind": 1, "verts": V, "faces": [[int(i) for i in f] for f in core.faces], "tri": tri,
+                "eqs": np.array(core._equations, dtype=float)}
+    if name in ("Polygon", "ConvexPolygon"):
+        import rowan
+        n = np.array(core.normal, dtype=float)
+        R = np.asarray(rowan.mapping.kabsch([n, -n], [[0, 0, 1], [0, 0, -1]])[0], dtype=float)
+        z = np.array([0.0, 0.0, 1.0])
+        R2 = np.asarray(rowan.mapping.kabsch([z, -z], [[0, 0, 1], [0, 0, -1]])[0], dtype=float)
+        return {"kind": 2, "verts": np.array(core._vertices, dtype=float), "normal": n, "R": R, "R2": R2}
+    return None
+
+
+def t_obj(st, extra=()):
+    k = st["kind"]
+    if k in (0, 3):
+        return ([I(k)] + t_v3s(st["verts"]) + t_triples(st["simplices"]) + t_idx(st["faces"])
+                + [f2h(x) for x in st["centroid"]] + [f2h(st["volume"])] + t_v3s(st["snormals"]) + list(extra))
+    if k == 1:
+        return ([I(1)] + t_v3s(st["verts"]) + t_idx(st["faces"]) + t_triples(st["tri"])
+                + [I(len(st["eqs"]))] + [f2h(float(x)) for x in np.asarray(st["eqs"]).ravel()])
+    return ([I(2)] + t_v3s(st["verts"]) + [f2h(float(x)) for x in st["normal"]]
+            + [f2h(float(x)) for x in st["R"].ravel()] + [f2h(float(x)) for x in st["R2"].ravel()])
+
+
+def rd_obj(cur, kind):
+    st = {"verts": cur.v3s()}
+    if kind in (0, 3):
+        st["centroid"] = np.array([cur.sc(), cur.sc(), cur.sc()])
+        st["volume"] = cur.sc()
+        st["snormals"] = cur.v3s()
+    elif kind == 1:
+        st["eqs"] = np.array([[cur.sc() for _ in range(4)] for _ in range(cur.int())], dtype=float).reshape(-1, 4)
+    return st
+
+
+def check_hoomd_measured(ctx, case, cls, pre, calls):
+    """B, numerically: the object WITH ITS CACHES as it was before the first call is given to the model whose getters
+    are the measure models of C01 / C02 / C04 (driver op c19.hoomdobj: to_hoomd twice in a row).  Both returned dicts
+    (vertices, centroid, area / volume, moment_inertia, sweep_radius, key order) and both states the object is left in
+    (vertices, _centroid, _volume, simplex normals / _equations) are compared with the implementation's."""
+    if pre is None:
+        return
+    kind = pre["kind"]
+    extra = []
+    if cls == "ConvexSpheropolyhedron":
+        pre = dict(pre, kind=3)
+        kind = 3
+        extra = [f2h(float(calls[0][0]["sweep_radius"])), f2h(float(calls[0][0]["volume"]))]
+    V = pre["verts"]
+    d = gen.diameter(V)
+    Ls = d + float(np.linalg.norm(V.mean(axis=0)))
+    size_key = "area" if kind == 2 else "volume"
+    p = 2 if kind == 2 else 3
+    ctx.count("hoomdobj:" + cls)
+    # ---- the hypotheses of the `…_measured` / `…_history` theorems, decided for THIS object
+    if kind in (0, 1, 3):
+        # Closed / Closed0: the object's own triangles bound the cone over them from the vertex mean (chainCheck over Q,
+        # sound by chainCheck_rat_sound / cone_closed of C01) and the cone has positive (non-zero) volume
+        from common import L
+        S = [V[list(t)] for t in (pre["simplices"] if kind != 1 else pre["tri"])]
+        apex = V.mean(axis=0)
+        ck = ctx.driver.Q("chain.check", L([np.asarray(t, dtype=float) for t in S]),
+                          L([np.array([apex, t[0], t[1], t[2]]) for t in S]))
+        ok = bool(ck[0]) and (ck[3] > 0 if kind != 1 else ck[3] != 0)
+        ctx.count("hoomdobj:closed-surface-" + ("holds" if ok else "FAILS"))
+        if not ok:
+            ctx.contract_failures.append({"contract": "Closed (hypothesis of hoomd_*_measured): the object's triangles "
+                                          "bound a solid (exact, Q)", "got": [bool(ck[0]), float(ck[3])], "class": cls})
+    else:
+        R, n = pre["R"], pre["normal"]
+        ok = (np.allclose(R @ R.T, np.eye(3), atol=1e-12) and abs(np.linalg.det(R) - 1) < 1e-12
+              and np.allclose(R @ n, [0, 0, 1], atol=1e-12))
+        ctx.count("hoomdobj:kabsch-frame-" + ("holds" if ok else "FAILS"))
+        if not ok:
+            ctx.contract_failures.append({"contract": "IsFrame R n (hypothesis of hoomd_centred_polygon_certified)",
+                                          "normal": n.tolist()})
+    try:
+        cur = Cur(ctx.driver.F("c19.hoomdobj", t_obj(pre, extra)))
+        for n, (out, post) in enumerate(calls):
+            tag = "call %d: " % (n + 1)
+            md, mst = cur.dict(), rd_obj(cur, kind)
+            if [k for k, _ in md] != list(out.keys()):
+                ctx.disagree("c19.hoomdobj:keys", case, [tag, [k for k, _ in md], list(out.keys())])
+                return
+            for k, mv in md:
+                iv = out[k]
+                if k == "faces":
+                    ok = mv == ("idx", [[int(i) for i in f] for f in iv])
+                elif k in ("vertices", "centroid"):
+                    ok = ctx.close_enough(np.asarray(mv[1], dtype=float), np.asarray(iv, dtype=float), Ls)
+                elif k == "moment_inertia":
+                    ok = ctx.close_enough(np.asarray(mv[1], dtype=float), np.asarray(iv, dtype=float), d ** (p + 2))
+                elif k == "sweep_radius":
+                    ok = mv == float(iv)
+                else:
+                    ok = ctx.close_enough(float(mv), float(iv), d ** p if k == size_key else abs(float(iv)))
+                if not ok:
+                    ctx.disagree("c19.hoomdobj:" + k, case, [tag, mv if k != "vertices" else "vertices", np.asarray(iv).tolist()
+                                                            if k != "vertices" else None])
+            if post is None:
+                continue
+            if not ctx.close_enough(mst["verts"], post["verts"], Ls):
+                ctx.disagree("c19.hoomdobj:state-vertices", case, tag + "vertices the object is left with")
+            if kind in (0, 3):
+                if not ctx.close_enough(mst["centroid"], post["centroid"], Ls):
+                    ctx.disagree("c19.hoomdobj:state-_centroid", case, [tag, mst["centroid"].tolist(), post["centroid"].tolist()])
+                if not ctx.close_enough(mst["volume"], post["volume"], d ** 3):
+                    ctx.disagree("c19.hoomdobj:state-_volume", case, [tag, mst["volume"], post["volume"]])
+                if not ctx.close_enough(mst["snormals"], post["snormals"], 1.0, tol=1e-7):
+                    ctx.disagree("c19.hoomdobj:state-simplex-normals", case, tag)
+            elif kind == 1:
+                sc = np.array([1.0, 1.0, 1.0, Ls])
+                if mst["eqs"].shape != post["eqs"].shape or not np.all(np.abs(mst["eqs"] - post["eqs"]) <= 1e-7 * sc):
+                    ctx.disagree("c19.hoomdobj:state-_equations", case, tag)
+    except ModelRaise as e:
+        ctx.disagree("c19.hoomdobj", case, "model raised " + e.kind)
+
+
+def curved_judge(ctx, case, s, cls, out, rec, tag, skip=()):
+    """one Sphere/Ellipsoid to_hoomd result against the closed forms of the shape `rec` centred at the origin"""
+    failed = set()
+
+    def fail(clause, what, detail):
+        failed.add(clause)
+        if clause not in skip:
+            ctx.fail("%s.to_hoomd:%s%s" % (cls, clause, tag), what, case, detail)
+
+    keys = list(out.keys())
+    if sorted(keys) != sorted(HOOMD_KEYS[cls]):
+        fail("keys", "keys are not the documented ones", keys)
+        return failed
+    r = rec["radii"]
+    abc = [r[0]] * 3 if cls == "Sphere" else r
+    vol = 4.0 / 3.0 * np.pi * abc[0] * abc[1] * abc[2]
+    I0 = vol / 5.0 * np.diag([abc[1] ** 2 + abc[2] ** 2, abc[0] ** 2 + abc[2] ** 2, abc[0] ** 2 + abc[1] ** 2])
+    if not np.array_equal(np.asarray(out["centroid"], dtype=float), np.zeros(3)):
+        fail("centroid-field", "centroid is not (0,0,0)", np.asarray(out["centroid"], dtype=float).tolist())
+    if not ctx.close_enough(out["volume"], vol, vol):
+        fail("volume", "volume is not that of the shape", [float(out["volume"]), vol])
+    if not ctx.close_enough(out["moment_inertia"], I0, vol * max(abc) ** 2):
+        fail("inertia", "moment_inertia is not the tensor about the centre",
+             [np.asarray(out["moment_inertia"]).tolist(), I0.tolist()])
+    sizes = {"diameter": 2 * r[0]} if cls == "Sphere" else {"a": r[0], "b": r[1], "c": r[2]}
+    for k, x in sizes.items():
+        if float(out[k]) != x:
+            fail("size", "size parameter changed", [k, float(out[k]), x])
+    if not np.array_equal(np.asarray(s.centroid, dtype=float), np.asarray(rec["center"], dtype=float)):
+        fail("shape-moved", "the shape is not where it was after to_hoomd",
+             [rec["center"], np.asarray(s.centroid).tolist()])
+    return failed
+
+
+def check_hoomd_curved(ctx, case, s, rec):
+    cls = rec["cls"]
+    out = impl("to_hoomd", s.to_hoomd)
+    failed = curved_judge(ctx, case, s, cls, out, rec, "")
+    if "keys" in failed:
+        return
+    keys = list(out.keys())
+    r = rec["radii"]
+    sizes = {"diameter": 2 * r[0]} if cls == "Sphere" else {"a": r[0], "b": r[1], "c": r[2]}
+    # B
+    try:
+        cur = Cur(ctx.driver.F("c19.tohoomd", t_shape(rec), [f2h(0.0)] * 3,
+                               [I(1)] + t_str("volume") + [f2h(float(out["volume"]))],
+                               t_rows(np.asarray(out["moment_inertia"], dtype=float).tolist())))
+        md, mfinal = cur.dict(), cur.shape()
+        if [k for k, _ in md] != keys:
+            ctx.disagree("c19.tohoomd", case, ["key order", [k for k, _ in md], keys])
+        for k, mv in md:
+            if k in sizes and mv != float(out[k]):
+                ctx.disagree("c19.tohoomd", case, [k, mv, float(out[k])])
+            if k == "centroid" and list(mv[1]) != [float(x) for x in out["centroid"]]:
+                ctx.disagree("c19.tohoomd", case, ["centroid", mv, out["centroid"]])
+        d = rec_diff(mfinal, record(s))
+        if d:
+            ctx.disagree("c19.tohoomd", case, "final state: " + d)
+    except ModelRaise as e:
+        ctx.disagree("c19.tohoomd", case, "model raised " + e.kind)
+    # the same question again, after other queries, and after the shape was moved with its own setter
+    ctx.count("to_hoomd:repeat")
+    out2 = impl("to_hoomd(second call)", s.to_hoomd)
+    failed |= curved_judge(ctx, case, s, cls, out2, impl("attributes", record, s), ":repeat", skip=failed)
+    read_shuffled({"volume": lambda: s.volume, "inertia_tensor": lambda: s.inertia_tensor, "repr": lambda: repr(s),
+                   "gsd": lambda: s.gsd_shape_spec, "surface_area": lambda: s.surface_area, "iq": lambda: s.iq},
+                  [cls, rec["radii"], rec["center"], "hoomd"])
+    out3 = impl("to_hoomd(after queries)", s.to_hoomd)
+    failed |= curved_judge(ctx, case, s, cls, out3, impl("attributes", record, s), ":after-queries", skip=failed)
+    c_new = [float(x) for x in (np.asarray(rec["center"], dtype=float) * np.array([-0.5, 2.0, 1.25]) + max(r))]
+
+    def move():
+        s.centroid = np.array(c_new)
+    impl("centroid setter", move)
+    ctx.count("to_hoomd:after-move")
+    out4 = impl("to_hoomd(after move)", s.to_hoomd)
+    curved_judge(ctx, case, s, cls, out4, impl("attributes", record, s), ":after-move", skip=failed)
+
+
+def hoomd_judge(ctx, case, s, core, out, rec, size_before, tag, skip=()):
+    """Judge ONE to_hoomd result of a vertex based shape against the independent description of the shape `rec`
+    (recorded just before the call) translated so that its centroid is the origin.  Returns (violated clauses, snapshot
+    of the returned data).  `tag` names the history in the signature ('' = first call on the object as generated,
+    ':repeat' = asked again at once, ':after-queries', ':after-move'); a clause in `skip` was already violated by an
+    earlier call on the same object (the same defect) and is not reported again."""
+    cls = rec["cls"]
+    failed = set()
+
+    def fail(clause, what, detail):
+        failed.add(clause)
+        if clause not in skip:
+            ctx.fail("%s.to_hoomd:%s%s" % (cls, clause, tag), what, case, detail)
+
+    keys = list(out.keys())
+    if sorted(keys) != sorted(HOOMD_KEYS[cls]):
+        fail("keys", "keys are not the documented ones", keys)
+        return failed, None
+    Ls = scale_of(rec)
+    v0 = rec["verts"]
+    size_key = "area" if cls in ("Polygon", "ConvexPolygon", "ConvexSpheropolygon") else "volume"
+    cen, centred, size_indep, inertia = hoomd_expect(s, rec)
+    snap = {k: (np.array(val, dtype=float, copy=True) if k != "faces" else [[int(i) for i in f] for f in val])
+            for k, val in out.items()}
+    ov = snap["vertices"]
+    cols = ov.shape[1] if ov.ndim == 2 else -1
+    d = gen.diameter(v0)
+    # (1) vertices = original - centroid (first 2 or 3 coordinates)
+    ok_v = ov.ndim == 2 and cols in (2, 3) and ov.shape[0] == len(v0) and ctx.close_enough(ov, centred[:, :cols], Ls)
+    if not ok_v:
+        dev = float(np.max(np.abs(ov - centred[:, :cols]))) if (ov.ndim == 2 and ov.shape[0] == len(v0) and cols in (2, 3)) else "shape"
+        fail("not-centred", "returned vertices are not the original ones minus the centroid",
+             {"max_dev": dev, "centroid": cen.tolist()})
+    else:
+        # (1b) the RETURNED vertices, on their own, have centroid 0 / the stated size / the stated inertia
+        rv = np.c_[ov, np.zeros(len(ov))] if cols == 2 else ov
+        flat = cls in ("Polygon", "ConvexPolygon", "ConvexSpheropolygon")
+        in_plane = (not flat) or float(np.max(np.abs(centred[:, 2]))) <= 1e-12 * Ls or cols == 3
+        if flat and in_plane:
+            a2, n2, c2, J2 = poly_measures(rv)
+            if not ctx.close_enough(c2, np.zeros(3), Ls):
+                fail("not-centred", "centroid of the returned vertices is not the origin", c2.tolist())
+            if not ctx.close_enough(float(out[size_key]) if cls != "ConvexSpheropolygon" else a2, a2, d * d):
+                fail("area", "area is not that of the returned vertices", [float(out["area"]), a2])
+            if "moment_inertia" in out and not ctx.close_enough(out["moment_inertia"], J2 * np.outer(n2, n2), d ** 4):
+                fail("inertia", "moment_inertia is not that of the returned vertices",
+                     [np.asarray(out["moment_inertia"]).tolist(), (J2 * np.outer(n2, n2)).tolist()])
+        elif cls in ("Polyhedron", "ConvexPolyhedron"):
+            vol2, c2, I2 = solid_measures(rv, rec["faces"])
+            if not ctx.close_enough(c2, np.zeros(3), Ls):
+                fail("not-centred", "centroid of the returned vertices is not the origin", c2.tolist())
+            if not ctx.close_enough(float(out["volume"]), vol2, d ** 3):
+                fail("volume", "volume is not that of the returned vertices", [float(out["volume"]), vol2])
+            if not ctx.close_enough(out["moment_inertia"], I2, d ** 5):
+                fail("inertia", "moment_inertia is not that of the returned vertices",
+                     [np.asarray(out["moment_inertia"]).tolist(), I2.tolist()])
+    # (2) centroid field
+    if not ctx.close_enough(np.asarray(out["centroid"], dtype=float), np.zeros(3), Ls):
+        fail("centroid-field", "centroid is not (0,0,0)", np.asarray(out["centroid"], dtype=float).tolist())
+    # (3) size and inertia against the independent values of the centred original
+    if cls in ("Polygon", "ConvexPolygon", "Polyhedron", "ConvexPolyhedron"):
+        p = 2 if size_key == "area" else 3
+        if not ctx.close_enough(float(out[size_key]), size_indep, d ** p):
+            fail(size_key, size_key + " is not that of the shape", [float(out[size_key]), size_indep])
+        if not ctx.close_enough(out["moment_inertia"], inertia, d ** (p + 2)):
+            fail("inertia", "moment_inertia is not the tensor of the centred shape",
+                 [np.asarray(out["moment_inertia"]).tolist(), inertia.tolist()])
+    else:
+        if not ctx.close_enough(float(out[size_key]), size_before, abs(size_before)):
+            fail(size_key, size_key + " differs from the shape's " + size_key, [float(out[size_key]), size_before])
+    # (4) sweep radius, faces
+    want_r = rec["radii"][0] if rec["radii"] else 0.0
+    if float(out["sweep_radius"]) != want_r:
+        fail("sweep_radius", "sweep_radius is not the rounding radius", [float(out["sweep_radius"]), want_r])
+    if "faces" in out and snap["faces"] != rec["faces"]:
+        fail("faces", "faces differ from the shape's faces", None)
+    # (5) the shape is back where it was: vertices AND what its own getters say about it
+    if not ctx.close_enough(np.asarray(core.vertices, dtype=float), v0, Ls):
+        fail("shape-moved", "the shape is not where it was after to_hoomd",
+             float(np.max(np.abs(np.asarray(core.vertices) - v0))))
+    else:
+        c_after = np.array(impl("centroid", lambda: core.centroid), dtype=float)
+        if not ctx.close_enough(c_after, cen, Ls):
+            fail("shape-moved", "after to_hoomd the shape reports a centroid that is not the centroid of its vertices",
+                 {"centroid": c_after.tolist(), "expected": cen.tolist()})
+    return failed, snap
+
+
+def snap_of(out, snap):
+    """the first call's result as it was when it was returned"""
+    return {k: (snap[k] if k in snap else out[k]) for k in out}
+
+
 def check_hoomd(ctx, case, s):
     rec = impl("attributes", record, s)
     cls = rec["cls"]
@@ -922,125 +1439,29 @@ def check_hoomd(ctx, case, s):
         if has != model_has:
             ctx.disagree("c19.tohoomd", case, "to_hoomd presence: impl %r model %r" % (has, model_has))
         return
-    Ls = scale_of(rec)
     if cls in ("Sphere", "Ellipsoid"):
-        c0 = np.array(s.centroid, dtype=float)
-        out = impl("to_hoomd", s.to_hoomd)
-        keys = list(out.keys())
-        if sorted(keys) != sorted(HOOMD_KEYS[cls]):
-            ctx.fail("%s.to_hoomd:keys" % cls, "keys are not the documented ones", case, keys)
-            return
-        r = rec["radii"]
-        abc = [r[0]] * 3 if cls == "Sphere" else r
-        vol = 4.0 / 3.0 * np.pi * abc[0] * abc[1] * abc[2]
-        I0 = vol / 5.0 * np.diag([abc[1] ** 2 + abc[2] ** 2, abc[0] ** 2 + abc[2] ** 2, abc[0] ** 2 + abc[1] ** 2])
-        if not np.array_equal(np.asarray(out["centroid"], dtype=float), np.zeros(3)):
-            ctx.fail("%s.to_hoomd:centroid-field" % cls, "centroid is not (0,0,0)", case, out["centroid"])
-        if not ctx.close_enough(out["volume"], vol, vol):
-            ctx.fail("%s.to_hoomd:volume" % cls, "volume is not that of the shape", case, [out["volume"], vol])
-        if not ctx.close_enough(out["moment_inertia"], I0, vol * max(abc) ** 2):
-            ctx.fail("%s.to_hoomd:inertia" % cls, "moment_inertia is not the tensor about the centre", case,
-                     [np.asarray(out["moment_inertia"]).tolist(), I0.tolist()])
-        sizes = {"diameter": 2 * r[0]} if cls == "Sphere" else {"a": r[0], "b": r[1], "c": r[2]}
-        for k, x in sizes.items():
-            if float(out[k]) != x:
-                ctx.fail("%s.to_hoomd:size" % cls, "size parameter changed", case, [k, out[k], x])
-        if not np.array_equal(np.asarray(s.centroid, dtype=float), c0):
-            ctx.fail("%s.to_hoomd:shape-moved" % cls, "the shape is not where it was after to_hoomd", case,
-                     [c0.tolist(), np.asarray(s.centroid).tolist()])
-        # B
-        try:
-            cur = Cur(ctx.driver.F("c19.tohoomd", t_shape(rec), [f2h(0.0)] * 3,
-                                   [I(1)] + t_str("volume") + [f2h(float(out["volume"]))],
-                                   t_rows(np.asarray(out["moment_inertia"], dtype=float).tolist())))
-            md, mfinal = cur.dict(), cur.shape()
-            if [k for k, _ in md] != keys:
-                ctx.disagree("c19.tohoomd", case, ["key order", [k for k, _ in md], keys])
-            for k, mv in md:
-                if k in sizes and mv != float(out[k]):
-                    ctx.disagree("c19.tohoomd", case, [k, mv, float(out[k])])
-                if k == "centroid" and list(mv[1]) != [float(x) for x in out["centroid"]]:
-                    ctx.disagree("c19.tohoomd", case, ["centroid", mv, out["centroid"]])
-            d = rec_diff(mfinal, record(s))
-            if d:
-                ctx.disagree("c19.tohoomd", case, "final state: " + d)
-        except ModelRaise as e:
-            ctx.disagree("c19.tohoomd", case, "model raised " + e.kind)
+        check_hoomd_curved(ctx, case, s, rec)
         return
 
     # ---------------- vertex based classes
+    Ls = scale_of(rec)
     v0 = rec["verts"].copy()
     core = s.polygon if cls == "ConvexSpheropolygon" else (s.polyhedron if cls == "ConvexSpheropolyhedron" else s)
     c_impl = np.array(impl("centroid", lambda: core.centroid), dtype=float)
     size_key = "area" if cls in ("Polygon", "ConvexPolygon", "ConvexSpheropolygon") else "volume"
     size_before = float(impl(size_key, getattr, s, size_key))
-    cen, centred, size_indep, inertia = hoomd_expect(s, rec)
+    measured = cls != "ConvexSpheropolygon"          # (that class's to_hoomd is the known finding; no cache either)
+    pre = impl("object state", obj_state, core) if measured else None
     out = impl("to_hoomd", s.to_hoomd)
-    keys = list(out.keys())
-    if sorted(keys) != sorted(HOOMD_KEYS[cls]):
-        ctx.fail("%s.to_hoomd:keys" % cls, "keys are not the documented ones", case, keys)
+    post1 = impl("object state", obj_state, core) if measured else None
+    live = bool(np.shares_memory(np.asarray(out.get("vertices", np.zeros(1))), core.vertices))
+    failed, snap = hoomd_judge(ctx, case, s, core, out, rec, size_before, "")
+    if snap is None:
         return
-    live = bool(np.shares_memory(np.asarray(out["vertices"]), core.vertices))
-    snap = {k: (np.array(val, dtype=float, copy=True) if k != "faces" else [[int(i) for i in f] for f in val])
-            for k, val in out.items()}
+    keys = list(out.keys())
     ov = snap["vertices"]
     cols = ov.shape[1] if ov.ndim == 2 else -1
     d = gen.diameter(v0)
-    # (1) vertices = original - centroid (first 2 or 3 coordinates)
-    ok_v = ov.ndim == 2 and cols in (2, 3) and ov.shape[0] == len(v0) and ctx.close_enough(ov, centred[:, :cols], Ls)
-    if not ok_v:
-        dev = float(np.max(np.abs(ov - centred[:, :cols]))) if (ov.ndim == 2 and ov.shape[0] == len(v0) and cols in (2, 3)) else "shape"
-        ctx.fail("%s.to_hoomd:not-centred" % cls, "returned vertices are not the original ones minus the centroid", case,
-                 {"max_dev": dev, "centroid": cen.tolist()})
-    else:
-        # (1b) the RETURNED vertices, on their own, have centroid 0 / the stated size / the stated inertia
-        rv = np.c_[ov, np.zeros(len(ov))] if cols == 2 else ov
-        flat = cls in ("Polygon", "ConvexPolygon", "ConvexSpheropolygon")
-        in_plane = (not flat) or float(np.max(np.abs(centred[:, 2]))) <= 1e-12 * Ls or cols == 3
-        if flat and in_plane:
-            a2, n2, c2, J2 = poly_measures(rv)
-            if not ctx.close_enough(c2, np.zeros(3), Ls):
-                ctx.fail("%s.to_hoomd:not-centred" % cls, "centroid of the returned vertices is not the origin", case, c2.tolist())
-            if not ctx.close_enough(float(out[size_key]) if cls != "ConvexSpheropolygon" else a2, a2, d * d):
-                ctx.fail("%s.to_hoomd:area" % cls, "area is not that of the returned vertices", case, [float(out["area"]), a2])
-            if "moment_inertia" in out and not ctx.close_enough(out["moment_inertia"], J2 * np.outer(n2, n2), d ** 4):
-                ctx.fail("%s.to_hoomd:inertia" % cls, "moment_inertia is not that of the returned vertices", case,
-                         [np.asarray(out["moment_inertia"]).tolist(), (J2 * np.outer(n2, n2)).tolist()])
-        elif cls in ("Polyhedron", "ConvexPolyhedron"):
-            vol2, c2, I2 = solid_measures(rv, rec["faces"])
-            if not ctx.close_enough(c2, np.zeros(3), Ls):
-                ctx.fail("%s.to_hoomd:not-centred" % cls, "centroid of the returned vertices is not the origin", case, c2.tolist())
-            if not ctx.close_enough(float(out["volume"]), vol2, d ** 3):
-                ctx.fail("%s.to_hoomd:volume" % cls, "volume is not that of the returned vertices", case, [float(out["volume"]), vol2])
-            if not ctx.close_enough(out["moment_inertia"], I2, d ** 5):
-                ctx.fail("%s.to_hoomd:inertia" % cls, "moment_inertia is not that of the returned vertices", case,
-                         [np.asarray(out["moment_inertia"]).tolist(), I2.tolist()])
-    # (2) centroid field
-    if not ctx.close_enough(np.asarray(out["centroid"], dtype=float), np.zeros(3), Ls):
-        ctx.fail("%s.to_hoomd:centroid-field" % cls, "centroid is not (0,0,0)", case, np.asarray(out["centroid"]).tolist())
-    # (3) size and inertia against the independent values of the centred original
-    if cls in ("Polygon", "ConvexPolygon", "Polyhedron", "ConvexPolyhedron"):
-        p = 2 if size_key == "area" else 3
-        if not ctx.close_enough(float(out[size_key]), size_indep, d ** p):
-            ctx.fail("%s.to_hoomd:%s" % (cls, size_key), size_key + " is not that of the shape", case,
-                     [float(out[size_key]), size_indep])
-        if not ctx.close_enough(out["moment_inertia"], inertia, d ** (p + 2)):
-            ctx.fail("%s.to_hoomd:inertia" % cls, "moment_inertia is not the tensor of the centred shape", case,
-                     [np.asarray(out["moment_inertia"]).tolist(), inertia.tolist()])
-    else:
-        if not ctx.close_enough(float(out[size_key]), size_before, abs(size_before)):
-            ctx.fail("%s.to_hoomd:%s" % (cls, size_key), size_key + " differs from the shape's " + size_key, case,
-                     [float(out[size_key]), size_before])
-    # (4) sweep radius, faces
-    want_r = rec["radii"][0] if rec["radii"] else 0.0
-    if float(out["sweep_radius"]) != want_r:
-        ctx.fail("%s.to_hoomd:sweep_radius" % cls, "sweep_radius is not the rounding radius", case, [out["sweep_radius"], want_r])
-    if "faces" in out and snap["faces"] != rec["faces"]:
-        ctx.fail("%s.to_hoomd:faces" % cls, "faces differ from the shape's faces", case, None)
-    # (5) the shape is back where it was
-    if not ctx.close_enough(np.asarray(core.vertices, dtype=float), v0, Ls):
-        ctx.fail("%s.to_hoomd:shape-moved" % cls, "the shape is not where it was after to_hoomd", case,
-                 float(np.max(np.abs(np.asarray(core.vertices) - v0))))
     v_after = np.array(core.vertices, dtype=float)
     # ---- B (before the shape is used again)
     try:
@@ -1073,14 +1494,43 @@ def check_hoomd(ctx, case, s):
                 ctx.disagree("c19.tohoomd:final-state", case, "model final vertices differ from impl")
     except ModelRaise as e:
         ctx.disagree("c19.tohoomd", case, "model raised " + e.kind)
-    # (6) returned data must not change when the shape is used afterwards (classes that centre)
+    # ---- the same question asked again: at once, after other queries, after the shape was moved with its own setter.
+    # Every answer is judged against the shape as it is THEN (to_hoomd twice = once; nothing an earlier call or query
+    # left behind may show).
+    def again(tag, label):
+        r_now = impl("attributes", record, s)
+        sb = float(impl(size_key, getattr, s, size_key))
+        o = impl("to_hoomd(%s)" % label, s.to_hoomd)
+        f, _ = hoomd_judge(ctx, case, s, core, o, r_now, sb, tag, skip=failed)
+        failed.update(f)
+        return o
+
+    ctx.count("to_hoomd:repeat")
+    out2 = again(":repeat", "second call")
+    # ---- B: the object with its caches, getters = the measure models, two calls in a row
+    if measured and sorted(out2.keys()) == sorted(HOOMD_KEYS[cls]):
+        check_hoomd_measured(ctx, case, cls, pre, [(snap_of(out, snap), post1), (out2, impl("object state", obj_state, core))])
+    getters = {"centroid": lambda: core.centroid, size_key: lambda: getattr(s, size_key), "repr": lambda: repr(s),
+               "gsd": lambda: s.gsd_shape_spec}
+    if cls in ("Polygon", "ConvexPolygon", "Polyhedron", "ConvexPolyhedron"):
+        getters["inertia_tensor"] = lambda: s.inertia_tensor
+    if cls in ("Polyhedron", "ConvexPolyhedron", "ConvexSpheropolyhedron"):
+        getters["surface_area"] = lambda: s.surface_area
+    else:
+        getters["perimeter"] = lambda: s.perimeter
+    impl("queries", read_shuffled, getters, [cls, v0.tolist(), "hoomd"])
+    ctx.count("to_hoomd:after-queries")
+    again(":after-queries", "after queries")
+
+    def move():
+        core.centroid = np.asarray(core.centroid) + d * np.array([1.0, -2.0, 0.5 if cols == 3 else 0.0])
+    impl("centroid setter", move)
+    ctx.count("to_hoomd:after-move")
+    again(":after-move", "after move")
+    if cls in ("Polygon", "ConvexPolygon", "Polyhedron", "ConvexPolyhedron"):
+        impl("inertia_tensor", lambda: s.inertia_tensor)
+    # (6) returned data must not have changed while the shape was used (classes that centre)
     if cls != "ConvexSpheropolygon":
-        def use_again():
-            core.centroid = np.asarray(core.centroid) + d * np.array([1.0, -2.0, 0.5 if cols == 3 else 0.0])
-            s.to_hoomd()
-            if cls in ("Polygon", "ConvexPolygon", "Polyhedron", "ConvexPolyhedron"):
-                s.inertia_tensor
-        impl("to_hoomd(second call)", use_again)
         for k, val in out.items():
             now = np.array(val, dtype=float) if k != "faces" else [[int(i) for i in f] for f in val]
             same = (now == snap[k]) if k == "faces" else np.array_equal(now, snap[k])
@@ -1097,11 +1547,21 @@ def eval_shape_case(ctx, case):
         ctx.fail("%s.__init__:raises" % case["cls"], "constructor raised %s on a generated valid shape" % exc_kind(e), case, repr(e)[:300])
         return
     ctx.count("class:" + case["cls"])
+    # a third of the shapes are examined on an object that REACHED this geometry through its mutators (scaled / shifted
+    # copy -> every member read once, incl. to_hoomd and repr -> size setter -> centre / radius setters)
+    key = [case["cls"], case.get("vertices"), case.get("radii"), case.get("center"), case.get("normal")]
+    hrng = history.rng_for(key)
+    s, how = history.maybe_via_history(s, hrng, 0.33, ctx)
     seed_ints = case.get("json_ints") or list(range(3, 40))
-    for chk in (lambda: check_gsd(ctx, case, s), lambda: check_repr(ctx, case, s),
-                lambda: check_to_json(ctx, case, s, seed_ints), lambda: check_hoomd(ctx, case, s)):
+    checks = {"gsd": lambda: check_gsd(ctx, case, s), "repr": lambda: check_repr(ctx, case, s),
+              "to_json": lambda: check_to_json(ctx, case, s, seed_ints), "to_hoomd": lambda: check_hoomd(ctx, case, s)}
+    # the four representations are asked in an order drawn per case; GSD and repr are asked once more at the end, i.e.
+    # also AFTER to_hoomd was called several times and the shape was moved with its centroid setter
+    order = [list(checks)[i] for i in hrng.permutation(len(checks))]
+    ctx.count("order:first-" + order[0])
+    for name in order + ["gsd", "repr"]:
         try:
-            chk()
+            checks[name]()
         except ImplRaise as e:
             ctx.fail("%s.%s:raises" % (case["cls"], e.what), "%s raised %s on a valid shape" % (e.what, type(e.exc).__name__),
                      case, repr(e.exc)[:300])
@@ -1291,10 +1751,43 @@ KNOWN_WITNESS = {"kind": "shape", "cls": "ConvexSpheropolygon",
                  "note": "witness of known_findings.json (C19 ConvexSpheropolygon.to_hoomd:not-centred)"}
 
 
+NONFINITE = [      # non-finite numbers are written as strings (the evidence / replay files stay strict JSON)
+    {"cls": "Circle", "radii": ["inf"], "center": [1.0, 2.0, 0.0]},
+    {"cls": "Sphere", "radii": ["inf"], "center": [1.0, -2.0, 3.0]},
+    {"cls": "Ellipse", "radii": ["inf", 2.0], "center": [0.5, 2.0, 0.0]},
+    {"cls": "Ellipsoid", "radii": [1.0, "inf", 2.0], "center": [0.5, 2.0, -1.0]},
+    {"cls": "Circle", "radii": [1.5], "center": ["nan", 2.0, 0.0]},
+    {"cls": "Sphere", "radii": [2.5], "center": ["-inf", 1.0, -0.0]},
+    {"cls": "Ellipsoid", "radii": [1.0, 3.0, 2.0], "center": [0.5, "inf", "nan"]},
+    {"cls": "ConvexSpheropolyhedron", "radii": ["inf"],
+     "vertices": [[3.0, 3.0, 3.0], [4.0, 3.0, 3.0], [3.0, 4.0, 3.0], [3.0, 3.0, 4.0]]},
+]
+
+
+def eval_nonfinite(ctx, case):
+    """shapes with a non-finite parameter are outside the property's quantifier; what their repr does (the bare names
+    inf / nan -> NameError under eval with only coxeter bound) is compared with the model (correspondence only)"""
+    try:
+        with warnings.catch_warnings():
+            warnings.simplefilter("ignore")
+            s = build(dict(case, radii=[float(x) for x in case["radii"]],
+                           center=[float(x) for x in case["center"]] if case.get("center") else None))
+    except Exception as e:  # noqa: BLE001
+        ctx.count("nonfinite:constructor-" + exc_kind(e))
+        return
+    ctx.count("nonfinite:" + case["cls"])
+    try:
+        check_repr(ctx, case, s)
+    except ImplRaise as e:
+        ctx.disagree("c19.reprtext", case, "%s raised %s" % (e.what, type(e.exc).__name__))
+
+
 def eval_case(ctx, case):
     k = case.get("kind", "shape")
     if k == "shape":
         eval_shape_case(ctx, case)
+    elif k == "nonfinite":
+        eval_nonfinite(ctx, case)
     elif k == "gsd-variant":
         eval_gsd_variant(ctx, case)
     elif k == "mapkeys":
@@ -1315,6 +1808,16 @@ def run(ctx):
             eval_case(ctx, case)
     ctx.case(KNOWN_WITNESS)
     eval_case(ctx, dict(KNOWN_WITNESS))
+    for c in NONFINITE:
+        case = dict(c, kind="nonfinite", nonfinite=True)
+        ctx.case(case)
+        eval_case(ctx, case)
+    for _ in range(ctx.budget(1, 5)):
+        for case in c19_dispatch_cases(rng):
+            case["json_ints"] = [int(x) for x in rng.integers(0, 10 ** 6, size=40)]
+            ctx.count("dispatch:" + case["info"]["place"])
+            ctx.case(case)
+            eval_case(ctx, case)
     for _ in range(ctx.budget(1, 8)):
         for case in gsd_variant_cases(rng, ctx):
             ctx.case(case)
